@@ -9,6 +9,7 @@ from specs.acks import *
 from specs.connection import *
 from specs.inbound import *
 from specs.api_entry import *
+from specs.session import *
 
 KEEP_HANDLE = ['_buffer', 'g_dispatched', 'g_firing', 'id', 'IDLE', 'CONNECTING', 'CONNECTED', 'protocol', 'factory', 'addr', 'transport',
                '_pingReq', 'queuePublishTx', 'windowPublish', 'windowPubRelease', 'windowPubRx', 'windowSubscribe',
@@ -23,6 +24,12 @@ KEEP_RECV = ['g_firing', 'id', 'IDLE', 'CONNECTING', 'CONNECTED', 'protocol', 'f
              '_pingReq', 'queuePublishTx', 'windowPublish', 'windowPubRelease', 'windowPubRx', 'windowSubscribe',
              'windowUnsubscribe', '_window', '_initialT', '_bandwith', '_factor', '_version', '_cleanStart',
              'onPublish', 'onDisconnection', 'onMqttConnectionMade', 'pdu', 'tr_closes']
+
+
+@spec
+def no_new_fired() -> bool:
+    """no Deferred that existed before has fired during this step"""
+    return forall(lambda d: implies(old(is_bool(obj_at(d).d_fired) and not obj_at(d).d_fired), unchanged(obj_at(d).d_fired)))
 
 
 @contract('mqtt.pdu.PUBLISH.decode', props=['C16', 'C06'])
@@ -43,6 +50,10 @@ def _(self: Ref['mqtt.client.pubsubs.MQTTProtocol'], packet: Bytes):
     requires(any_state(self))
     modifies(all_but(KEEP_HANDLE), callbacks())
     ensures(any_state(self))
+    # a packet that does not belong to the current state / profile is ignored: nothing written, nothing delivered,
+    # no Deferred fired, no state change (a corrupt one may at most abort the connection)
+    ensures(implies(not old(self.state == self.CONNECTING), out(self) == old(out(self)) and cb_unchanged() and unchanged(self.state)
+                    and fired_stay_fired() and no_new_fired()))
 
 
 @contract('mqtt.client.base.MQTTBaseProtocol._handlePINGRESP', props=['C16', 'C14', 'C03', 'C15'], classes=PROFILES)
@@ -51,6 +62,10 @@ def _(self: Ref['mqtt.client.pubsubs.MQTTProtocol'], packet: Bytes):
     requires(any_state(self))
     modifies(all_but(KEEP_HANDLE), callbacks())
     ensures(any_state(self))
+    # a packet that does not belong to the current state / profile is ignored: nothing written, nothing delivered,
+    # no Deferred fired, no state change (a corrupt one may at most abort the connection)
+    ensures(implies(not old(self.state == self.CONNECTED), out(self) == old(out(self)) and cb_unchanged() and unchanged(self.state)
+                    and fired_stay_fired() and no_new_fired()))
 
 
 @contract('mqtt.client.base.MQTTBaseProtocol._handleSUBACK', props=['C16', 'C14', 'C03', 'C07'], classes=PROFILES)
@@ -59,6 +74,10 @@ def _(self: Ref['mqtt.client.pubsubs.MQTTProtocol'], packet: Bytes):
     requires(any_state(self))
     modifies(all_but(KEEP_HANDLE), callbacks())
     ensures(any_state(self))
+    # a packet that does not belong to the current state / profile is ignored: nothing written, nothing delivered,
+    # no Deferred fired, no state change (a corrupt one may at most abort the connection)
+    ensures(implies(not old(self.state == self.CONNECTED and not has_class(self, 'mqtt.client.publisher.MQTTProtocol')), out(self) == old(out(self)) and cb_unchanged() and unchanged(self.state)
+                    and fired_stay_fired() and no_new_fired()))
 
 
 @contract('mqtt.client.base.MQTTBaseProtocol._handleUNSUBACK', props=['C16', 'C14', 'C03', 'C07'], classes=PROFILES)
@@ -67,6 +86,10 @@ def _(self: Ref['mqtt.client.pubsubs.MQTTProtocol'], packet: Bytes):
     requires(any_state(self))
     modifies(all_but(KEEP_HANDLE), callbacks())
     ensures(any_state(self))
+    # a packet that does not belong to the current state / profile is ignored: nothing written, nothing delivered,
+    # no Deferred fired, no state change (a corrupt one may at most abort the connection)
+    ensures(implies(not old(self.state == self.CONNECTED and not has_class(self, 'mqtt.client.publisher.MQTTProtocol')), out(self) == old(out(self)) and cb_unchanged() and unchanged(self.state)
+                    and fired_stay_fired() and no_new_fired()))
 
 
 @contract('mqtt.client.base.MQTTBaseProtocol._handlePUBLISH', props=['C16', 'C14', 'C03', 'C06'], classes=PROFILES)
@@ -75,6 +98,10 @@ def _(self: Ref['mqtt.client.pubsubs.MQTTProtocol'], packet: Bytes):
     requires(any_state(self))
     modifies(all_but(KEEP_HANDLE), callbacks())
     ensures(any_state(self))
+    # a packet that does not belong to the current state / profile is ignored: nothing written, nothing delivered,
+    # no Deferred fired, no state change (a corrupt one may at most abort the connection)
+    ensures(implies(not old(self.state == self.CONNECTED and not has_class(self, 'mqtt.client.publisher.MQTTProtocol')), out(self) == old(out(self)) and cb_unchanged() and unchanged(self.state)
+                    and fired_stay_fired() and no_new_fired()))
 
 
 @contract('mqtt.client.base.MQTTBaseProtocol._handlePUBACK', props=['C16', 'C14', 'C03', 'C05'], classes=PROFILES)
@@ -83,6 +110,10 @@ def _(self: Ref['mqtt.client.pubsubs.MQTTProtocol'], packet: Bytes):
     requires(any_state(self))
     modifies(all_but(KEEP_HANDLE), callbacks())
     ensures(any_state(self))
+    # a packet that does not belong to the current state / profile is ignored: nothing written, nothing delivered,
+    # no Deferred fired, no state change (a corrupt one may at most abort the connection)
+    ensures(implies(not old(self.state == self.CONNECTED and not has_class(self, 'mqtt.client.subscriber.MQTTProtocol')), out(self) == old(out(self)) and cb_unchanged() and unchanged(self.state)
+                    and fired_stay_fired() and no_new_fired()))
 
 
 @contract('mqtt.client.base.MQTTBaseProtocol._handlePUBREL', props=['C16', 'C14', 'C03', 'C06'], classes=PROFILES)
@@ -91,6 +122,10 @@ def _(self: Ref['mqtt.client.pubsubs.MQTTProtocol'], packet: Bytes):
     requires(any_state(self))
     modifies(all_but(KEEP_HANDLE), callbacks())
     ensures(any_state(self))
+    # a packet that does not belong to the current state / profile is ignored: nothing written, nothing delivered,
+    # no Deferred fired, no state change (a corrupt one may at most abort the connection)
+    ensures(implies(not old(self.state == self.CONNECTED and not has_class(self, 'mqtt.client.publisher.MQTTProtocol')), out(self) == old(out(self)) and cb_unchanged() and unchanged(self.state)
+                    and fired_stay_fired() and no_new_fired()))
 
 
 @contract('mqtt.client.base.MQTTBaseProtocol._handlePUBREC', props=['C16', 'C14', 'C03', 'C05', 'C09'], classes=PROFILES)
@@ -99,6 +134,10 @@ def _(self: Ref['mqtt.client.pubsubs.MQTTProtocol'], packet: Bytes):
     requires(any_state(self))
     modifies(all_but(KEEP_HANDLE), callbacks())
     ensures(any_state(self))
+    # a packet that does not belong to the current state / profile is ignored: nothing written, nothing delivered,
+    # no Deferred fired, no state change (a corrupt one may at most abort the connection)
+    ensures(implies(not old(self.state == self.CONNECTED and not has_class(self, 'mqtt.client.subscriber.MQTTProtocol')), out(self) == old(out(self)) and cb_unchanged() and unchanged(self.state)
+                    and fired_stay_fired() and no_new_fired()))
 
 
 @contract('mqtt.client.base.MQTTBaseProtocol._handlePUBCOMP', props=['C16', 'C14', 'C03', 'C05', 'C09'], classes=PROFILES)
@@ -107,6 +146,10 @@ def _(self: Ref['mqtt.client.pubsubs.MQTTProtocol'], packet: Bytes):
     requires(any_state(self))
     modifies(all_but(KEEP_HANDLE), callbacks())
     ensures(any_state(self))
+    # a packet that does not belong to the current state / profile is ignored: nothing written, nothing delivered,
+    # no Deferred fired, no state change (a corrupt one may at most abort the connection)
+    ensures(implies(not old(self.state == self.CONNECTED and not has_class(self, 'mqtt.client.subscriber.MQTTProtocol')), out(self) == old(out(self)) and cb_unchanged() and unchanged(self.state)
+                    and fired_stay_fired() and no_new_fired()))
 
 
 @contract('mqtt.client.base.MQTTBaseProtocol._processPacket', props=['C16', 'C14', 'C03'], classes=PROFILES)
